@@ -116,6 +116,9 @@ func (lineWorld) Gen(seed uint64, tier string) core.Scenario {
 	r := core.NewRand(seed)
 	s := &LineSc{}
 	n := r.PickInt(1, 2, 3, 5, 10, 30)
+	if tier == "thorough" && r.Chance(1, 5) {
+		n = 120
+	}
 	withBad := r.Chance(1, 2)
 	for i := 0; i < n; i++ {
 		var mlen int
